@@ -99,20 +99,23 @@ theorem open_of_slots {L : Layout} (hL : L.OK) (ck : Checksum) {img : Img} {next
       simp [this, mkW, L.other_A]
 
 /-- `open` in the middle of a root write: the slot being written holds the new root, something
-older than `done`, or nothing valid -/
+older than `done`, or nothing valid.  Either `open` behaves as if the write had not started (and
+the slot holds nothing at least as new as `done`), or it returns the new root (which then is
+what the slot holds). -/
 theorem open_torn {L : Layout} (hL : L.OK) (ck : Checksum) {img : Img} {next g : Nat}
     {done : Option Root} {new : Root} (hn : next = L.rootA ∨ next = L.rootB)
     (hcur : loadValid ck img (L.other next) = done)
     (hg : ∀ r, done = some r → r.gen = g) (hnew : new.gen = g + 1)
     (hst : ∀ r', loadValid ck img next = some r' → r' = new ∨ ∃ r, done = some r ∧ r'.gen < r.gen) :
-    Writer.open L ck img = done.map (fun r => mkW r next) ∨
-    Writer.open L ck img = some (mkW new (L.other next)) := by
-  cases hx : loadValid ck img next with
-  | none =>
-    left
-    exact open_of_slots hL ck hn hcur (fun r' h => by rw [hx] at h; cases h)
-  | some r' =>
-    rcases hst r' hx with rfl | hold
+    (Writer.open L ck img = done.map (fun r => mkW r next) ∧
+      ∀ r', loadValid ck img next = some r' → ∃ r, done = some r ∧ r'.gen < r.gen) ∨
+    (Writer.open L ck img = some (mkW new (L.other next)) ∧ loadValid ck img next = some new) := by
+  rcases Option.eq_none_or_eq_some (loadValid ck img next) with hx | ⟨r', hx⟩
+  · left
+    have hv : ∀ r', loadValid ck img next = some r' → ∃ r, done = some r ∧ r'.gen < r.gen :=
+      fun r' h => by rw [hx] at h; cases h
+    exact ⟨open_of_slots hL ck hn hcur hv, hv⟩
+  · rcases hst r' hx with rfl | hold
     · right
       -- the new root wins: view it as the committed one with `next` swapped
       have hn' := Layout.other_slot hL hn
@@ -124,10 +127,80 @@ theorem open_torn {L : Layout} (hL : L.OK) (ck : Checksum) {img : Img} {next g :
         rw [hcur] at h
         exact ⟨r', rfl, by have := hg r'' h; omega⟩
       have := open_of_slots hL ck hn' h1 h2
-      simpa using this
+      exact ⟨by simpa using this, hx⟩
     · left
-      exact open_of_slots hL ck hn hcur (fun r'' h => by
-        rw [hx] at h; cases h; exact hold)
+      have hv : ∀ r'', loadValid ck img next = some r'' → ∃ r, done = some r ∧ r''.gen < r.gen :=
+        fun r'' h => by rw [hx] at h; cases h; exact hold
+      exact ⟨open_of_slots hL ck hn hcur hv, hv⟩
+
+/-- a torn write of a (short) length prefix over a short length prefix leaves a short length
+prefix: all three high bytes are zero in both, the low byte is one of the two -/
+theorem lenOK_mix {old : Img} {s n : Nat} (hold : lenOK old s) (hn : n ≤ bodyMax)
+    (m1 m2 : List Bool) (body : Bytes) :
+    lenOK (applyMasked (applyMasked old ⟨s, be32Enc n⟩ m1) ⟨s + lenPrefixLen, body⟩ m2) s := by
+  unfold lenOK lenAt rootMax at *
+  unfold bodyMax at hn
+  have hb : ∀ i, i < 4 → applyMasked (applyMasked old ⟨s, be32Enc n⟩ m1) ⟨s + lenPrefixLen, body⟩ m2 (s + i)
+      = applyMasked old ⟨s, be32Enc n⟩ m1 (s + i) := by
+    intro i hi
+    apply applyMasked_not_covers
+    unfold covers lenPrefixLen; simp only; omega
+  have h0 := hb 0 (by omega); have h1 := hb 1 (by omega)
+  have h2 := hb 2 (by omega); have h3 := hb 3 (by omega)
+  simp only [Nat.add_zero] at h0
+  rw [h0, h1, h2, h3]
+  have e0 : (UInt8.ofNat (n / 16777216 % 256)).toNat = 0 := by
+    rw [toNat_ofNat_lt (Nat.mod_lt _ (by decide))]; omega
+  have e1 : (UInt8.ofNat (n / 65536 % 256)).toNat = 0 := by
+    rw [toNat_ofNat_lt (Nat.mod_lt _ (by decide))]; omega
+  have e2 : (UInt8.ofNat (n / 256 % 256)).toNat = 0 := by
+    rw [toNat_ofNat_lt (Nat.mod_lt _ (by decide))]; omega
+  have e3 : (UInt8.ofNat (n % 256)).toNat = n := by
+    rw [toNat_ofNat_lt (Nat.mod_lt _ (by decide))]; omega
+  have c0 := applyMasked_cases old ⟨s, be32Enc n⟩ m1 s
+  have c1 := applyMasked_cases old ⟨s, be32Enc n⟩ m1 (s + 1)
+  have c2 := applyMasked_cases old ⟨s, be32Enc n⟩ m1 (s + 2)
+  have c3 := applyMasked_cases old ⟨s, be32Enc n⟩ m1 (s + 3)
+  have t0 : (applyMasked old ⟨s, be32Enc n⟩ m1 s).toNat = (old s).toNat ∨
+      (applyMasked old ⟨s, be32Enc n⟩ m1 s).toNat = 0 := by
+    rcases c0 with h | ⟨_, h⟩
+    · left; rw [h]
+    · right; rw [h]; simp only [Nat.sub_self]; exact e0
+  have t1 : (applyMasked old ⟨s, be32Enc n⟩ m1 (s + 1)).toNat = (old (s + 1)).toNat ∨
+      (applyMasked old ⟨s, be32Enc n⟩ m1 (s + 1)).toNat = 0 := by
+    rcases c1 with h | ⟨_, h⟩
+    · left; rw [h]
+    · right; rw [h]; simp only [Nat.add_sub_cancel_left]; exact e1
+  have t2 : (applyMasked old ⟨s, be32Enc n⟩ m1 (s + 2)).toNat = (old (s + 2)).toNat ∨
+      (applyMasked old ⟨s, be32Enc n⟩ m1 (s + 2)).toNat = 0 := by
+    rcases c2 with h | ⟨_, h⟩
+    · left; rw [h]
+    · right; rw [h]; simp only [Nat.add_sub_cancel_left]; exact e2
+  have t3 : (applyMasked old ⟨s, be32Enc n⟩ m1 (s + 3)).toNat = (old (s + 3)).toNat ∨
+      (applyMasked old ⟨s, be32Enc n⟩ m1 (s + 3)).toNat = n := by
+    rcases c3 with h | ⟨_, h⟩
+    · left; rw [h]
+    · right; rw [h]; simp only [Nat.add_sub_cancel_left]; exact e3
+  clear c0 c1 c2 c3 e0 e1 e2 e3 h0 h1 h2 h3 hb
+  generalize (applyMasked old ⟨s, be32Enc n⟩ m1 s).toNat = a0 at *
+  generalize (applyMasked old ⟨s, be32Enc n⟩ m1 (s + 1)).toNat = a1 at *
+  generalize (applyMasked old ⟨s, be32Enc n⟩ m1 (s + 2)).toNat = a2 at *
+  generalize (applyMasked old ⟨s, be32Enc n⟩ m1 (s + 3)).toNat = a3 at *
+  generalize (old s).toNat = b0 at *
+  generalize (old (s + 1)).toNat = b1 at *
+  generalize (old (s + 2)).toNat = b2 at *
+  generalize (old (s + 3)).toNat = b3 at *
+  have hb0 : b0 = 0 := by omega
+  have hb1 : b1 = 0 := by omega
+  have hb2 : b2 = 0 := by omega
+  have hb3 : b3 ≤ 52 := by omega
+  have ha0 : a0 = 0 := by omega
+  have ha1 : a1 = 0 := by omega
+  have ha2 : a2 = 0 := by omega
+  have ha3 : a3 ≤ 52 := by omega
+  subst ha0 ha1 ha2
+  simp only [Nat.zero_mul, Nat.zero_add]
+  exact Nat.add_le_add_left ha3 4
 
 /-! ## the quiet invariant -/
 
@@ -142,6 +215,7 @@ structure Quiet (L : Layout) (ck : Checksum) (d : Disk) (done : Option Root) (ne
   pend : ∀ p ∈ d.pending, L.freeStart ≤ p.off ∧ D ≤ p.off
   D_le : D ≤ free
   doneFree : ∀ r, done = some r → r.free ≤ (D : Int)
+  doneFs : ∀ r, done = some r → (L.freeStart : Int) ≤ r.free
   recs_ok : ∀ rec ∈ recs, L.freeStart ≤ rec.off ∧ rec.end_ ≤ free ∧ agreeRec d.view rec ∧
     (rec.end_ ≤ D → agreeRec d.durable rec)
 
@@ -179,23 +253,22 @@ theorem slot_lt {L : Layout} (hL : L.OK) {s i : Nat} (hs : s = L.rootA ∨ s = L
   have := hL.a_b; have := hL.b_free
   rcases hs with rfl | rfl <;> omega
 
+/-- on a crash image of a quiet disk both slots load as on the medium -/
+theorem Quiet.crash_slot (hL : L.OK) (q : Quiet L ck d done next g D free recs)
+    (χ : List (List Bool)) {s : Nat} (hs : s = L.rootA ∨ s = L.rootB) :
+    loadValid ck (d.crash χ) s = loadValid ck d.durable s ∧ lenOK (d.crash χ) s := by
+  have := slot_congr ck (img' := d.crash χ) (q.lenS hs)
+    (fun i hi => (q.crash_low χ (Or.inl (slot_lt hL hs hi))).symm)
+  exact ⟨this.1.symm, this.2⟩
+
 /-- what `open` returns on any crash image of a quiet disk -/
 theorem Quiet.open_crash (hL : L.OK) (q : Quiet L ck d done next g D free recs)
     (χ : List (List Bool)) :
     Writer.open L ck (d.crash χ) = done.map (fun r => mkW r next) := by
-  have hA := slot_congr ck (img' := d.crash χ) q.lenA
-    (fun i hi => (q.crash_low χ (Or.inl (slot_lt hL (Or.inl rfl) hi))).symm)
-  have hB := slot_congr ck (img' := d.crash χ) q.lenB
-    (fun i hi => (q.crash_low χ (Or.inl (slot_lt hL (Or.inr rfl) hi))).symm)
-  have hS : ∀ s, s = L.rootA ∨ s = L.rootB → loadValid ck (d.crash χ) s = loadValid ck d.durable s := by
-    intro s hs
-    rcases hs with rfl | rfl
-    · exact hA.1.symm
-    · exact hB.1.symm
   apply open_of_slots hL ck q.next_slot
-  · rw [hS _ (Layout.other_slot hL q.next_slot)]; exact q.cur
+  · rw [(q.crash_slot hL χ (Layout.other_slot hL q.next_slot)).1]; exact q.cur
   · intro r' h
-    rw [hS _ q.next_slot] at h
+    rw [(q.crash_slot hL χ q.next_slot).1] at h
     exact q.stale r' h
 
 /-- every record below the durable frontier is intact in any crash image -/
@@ -233,7 +306,7 @@ theorem Quiet.sync (hL : L.OK) (q : Quiet L ck d done next g D free recs) :
     rcases hs with rfl | rfl
     · exact hA.1.symm
     · exact hB.1.symm
-  refine ⟨q.next_slot, hA.2, hB.2, ?_, ?_, q.gen, ?_, Nat.le_refl _, ?_, ?_⟩
+  refine ⟨q.next_slot, hA.2, hB.2, ?_, ?_, q.gen, ?_, Nat.le_refl _, ?_, q.doneFs, ?_⟩
   · rw [durable_sync, hS _ (Layout.other_slot hL q.next_slot)]; exact q.cur
   · intro r' h
     rw [durable_sync, hS _ q.next_slot] at h
